@@ -312,3 +312,76 @@ Lemma float_entry_points :
   f_region = hdc_region PrimFloat.float 0%float 1%float 0.5%float PrimFloat.add PrimFloat.sub PrimFloat.mul PrimFloat.div
                         PrimFloat.leb PrimFloat.ltb fisnan.
 Proof. repeat split; reflexivity. Qed.
+
+(* ------------------------------------------------------------------ error branches over R *)
+Lemma Rnan_never a : existsb Rnan a = false.
+Proof. induction a; simpl; auto. Qed.
+
+Lemma index_error_iff a lim : nonnegR a ->
+  (Rcbu a lim = CbuIndexError <-> a = [] \/ exists k, in_range a k /\ lim < cellp a k).
+Proof.
+  intros Hn. pose proof (nonnegR_all a Hn) as H0.
+  destruct (cbu_error_cases R 0 Rplus Rleb Rltb Rnan a lim) as [_ HI]. unfold Rcbu. rewrite HI.
+  rewrite (nothing_selected R 0 Rplus Rleb Rltb Rnan Rleb_trans Radd_nonneg a lim H0). split.
+  - intros [_ [E|Hs]]; [left; exact E|].
+    destruct (argsort_desc R Rleb a) as [|x l] eqn:Ea.
+    + left. pose proof (Permutation_length (argsort_perm R Rleb a)) as L. rewrite Ea in L.
+      destruct a; [reflexivity|discriminate].
+    + right. destruct (argsort_head_max R 0 Rleb Rleb_total Rleb_trans a x l Ea) as [Hr [Hv _]].
+      exists (snd x). split; [exact Hr|]. apply Rleb_false in Hs. unfold cellp. rewrite <- Hv. lra.
+  - intros Hor. split; [apply Rnan_never|]. destruct Hor as [E|[k [Hk Hlt]]]; [left; exact E|right].
+    destruct (argsort_desc R Rleb a) as [|x l] eqn:Ea; [exact I|].
+    destruct (argsort_head_max R 0 Rleb Rleb_total Rleb_trans a x l Ea) as [_ [_ Hmax]].
+    specialize (Hmax k Hk). apply Rleb_true in Hmax. apply Rleb_false. unfold cellp in Hlt. lra.
+Qed.
+
+(* ------------------------------------------------------------------ _compute = selection on the cell probabilities *)
+Section Compute.
+  Variable cdfv : nat -> option R -> list R -> list R.
+  Variable cond : list (option nat).
+  Variable coords : list (list R).
+  Variable deltas : list R.
+  Variable alpha : R.
+
+  Definition Rregion := hdc_region R 0 1 (1/2) Rplus Rminus Rmult Rdiv Rleb Rltb Rnan cdfv cond coords deltas alpha.
+
+  Lemma region_is_selection :
+    Rregion = (Rhdr (cell_prob cdfv cond coords deltas) (1 - alpha),
+               match Rhdr (cell_prob cdfv cond coords deltas) (1 - alpha) with
+               | HdrOk _ pm _ => fm_of R Rdiv pm deltas | _ => 0 end).
+  Proof. unfold Rregion, hdc_region. rewrite Rnan_never. reflexivity. Qed.
+
+  Lemma region_ok m pm fm : nonnegR (cell_prob cdfv cond coords deltas) -> Rregion = (HdrOk m pm false, fm) ->
+    exists sel, Rcbu (cell_prob cdfv cond coords deltas) (1 - alpha) = CbuOk sel pm false /\
+                m = mask_of (length (cell_prob cdfv cond coords deltas)) sel /\
+                fm = fm_of R Rdiv pm deltas /\ ~ (sum_all (cell_prob cdfv cond coords deltas) < 1 - alpha).
+  Proof.
+    intros Hn H. rewrite region_is_selection in H. injection H as H1 H2.
+    destruct (hdr_fallback _ _ _ _ _ Hn H1) as [Hw [_ Hf]]. destruct (Hf eq_refl) as [sel [Hs Hm]].
+    exists sel. split; [exact Hs|]. split; [exact Hm|]. split.
+    - rewrite H1 in H2. symmetry. exact H2.
+    - intro Hlt. apply Hw in Hlt. discriminate.
+  Qed.
+
+  Lemma region_warned m pm fm : nonnegR (cell_prob cdfv cond coords deltas) -> Forall (fun d => d <> 0) deltas ->
+    Rregion = (HdrOk m pm true, fm) ->
+    sum_all (cell_prob cdfv cond coords deltas) < 1 - alpha /\ m = map (fun _ => true) (cell_prob cdfv cond coords deltas) /\ fm = 0.
+  Proof.
+    intros Hn Hd H. rewrite region_is_selection in H. injection H as H1 H2.
+    destruct (hdr_fallback _ _ _ _ _ Hn H1) as [Hw [Hf _]]. destruct (Hf eq_refl) as [Hm Hp].
+    split; [apply Hw; reflexivity|]. split; [exact Hm|]. rewrite H1 in H2. subst pm. rewrite <- H2.
+    pose proof (fm_of_div deltas 0 Hd) as E.
+    assert (P : prodR deltas <> 0).
+    { clear -Hd. induction Hd; simpl; [lra|]. apply Rmult_integral_contrapositive_currified; assumption. }
+    apply (Rmult_eq_reg_r (prodR deltas)); [|exact P]. rewrite E. lra.
+  Qed.
+End Compute.
+
+(* ------------------------------------------------------------------ an equidistant grid has the cell size as spacing *)
+Definition Rgrid (start delta : R) (n : nat) : list R := map (fun i => start + INR i * delta) (seq 0 n).
+Lemma Rgrid_spacing start delta n : (2 <= n)%nat -> dx_of R 0 Rminus (Rgrid start delta n) = delta.
+Proof.
+  intros Hn. destruct n as [|[|n]]; try lia. unfold dx_of, Rgrid. simpl. lra.
+Qed.
+Lemma Rgrid_length start delta n : length (Rgrid start delta n) = n.
+Proof. unfold Rgrid. rewrite map_length. apply seq_length. Qed.
